@@ -241,7 +241,7 @@ def _terminates(body) -> bool:
 
 def _canon_all(tree: ast.Module) -> ast.Module:
     from .canon import canon
-    return canon(tree, statements=False)
+    return canon(tree, statements=True)      # nested ifs merged; the loop-guard form is left as written (rules read path conditions)
 
 
 def _canon_control(tree: ast.Module) -> ast.Module:
